@@ -59,6 +59,9 @@ func TestC01(t *testing.T) {
 		defer mc.Close()
 		defer mc.Guard(t)
 		cfg := c01TxnCfg()
+		if rapid.IntRange(0, 7).Draw(t, "start-after-failed-restore") == 0 {
+			mc.ActFailedRestore(t)
+		}
 		t.Repeat(map[string]func(*rapid.T){
 			"txn":        func(t *rapid.T) { mc.ActTxn(t, cfg) },
 			"txn2":       func(t *rapid.T) { mc.ActTxn(t, cfg) },
